@@ -209,6 +209,18 @@ carquet_status_t carquet_statistics_add_values(
         const void* val = data + (i * value_size);
         int cmp_min = 0, cmp_max = 0;
 
+        /* NaN is unordered: it must not become a bound (Parquet: NaN is not
+         * included in min/max) */
+        if (builder->type == CARQUET_PHYSICAL_FLOAT) {
+            float fv;
+            memcpy(&fv, val, sizeof(fv));
+            if (isnan(fv)) continue;
+        } else if (builder->type == CARQUET_PHYSICAL_DOUBLE) {
+            double dv;
+            memcpy(&dv, val, sizeof(dv));
+            if (isnan(dv)) continue;
+        }
+
         if (builder->has_min) {
             switch (builder->type) {
                 case CARQUET_PHYSICAL_BOOLEAN:
